@@ -93,7 +93,7 @@ impl Scenario for Corrupt {
         "per case one subject and one byte string: reference encoding of a generated value hit by 1..3 storage faults (70% aimed with the encoder's annotation map: tags, counts, compacts, utf8, variant index, nanos, nonzero, bit length, padding; 30% blind: bit flip, byte set, truncate, extend, duplicate, splice), or valid(+suffix), or a random string over a skewed alphabet; delivered through a drawn benign source; outcome compared with the reference decoder (accept/reject, value, consumed); non-trivial = more than one seam call or a benign fault fired or the string is longer than one byte"
     }
     fn cases(&self, tier: Tier) -> u64 {
-        tiered(tier, 1_500_000, 150_000_000)
+        tiered(tier, 4_000_000, 150_000_000)
     }
     fn gen(&self, seed: u64, idx: u64, _tier: Tier) -> Plan {
         let mut rng = Rng::for_case(seed, "corrupt", idx);
